@@ -35,9 +35,9 @@ C16_O4p_refuted|Iora.C16.O4p_refuted|refuted|F31: a Close command destroys the s
 C16_O4p_partial|Iora.C16.O4p_partial_fits_buffer|partial|if the kernel takes every Send whole (response fits the socket buffer) everything sent before the Close is delivered, for every event sequence
 C16_O4p_prefix|Iora.C16.O4p_prefix_always|proved|for every event sequence the delivered bytes are a prefix of what was sent before the Close (never garbage, never reordered)
 C16_O5|Iora.C16.O5_framer_recovers|proved|the reference HTTP/1.1 framer applied to the concatenation of any list of wire-safe responses returns exactly their (status, field lines, body) list and nothing is left over
-C16_O5_process|Iora.C16.O5_process_wire_safe|proved|what processHttpRequest sends for a parsed request is wire-safe whenever the handler left a wire-safe, API-consistent response object with a 3-digit status
+C16_O5_process|Iora.C16.O5_process_wire_safe|proved|what processHttpRequest sends for a parsed request is wire-safe whenever the handler left token field names, no LF in values, no Transfer-Encoding, a status in 200..999 and an API-consistent body (or a 204/304, whose body and Content-Length are dropped under every method after the FC16a repair)
 C16_gen_methods|Iora.C16.gen_methods|proved|Gen conformance: HttpMethod enumerators and parseMethod table agree with the model's Method type
-C16_gen_shape|Iora.C16.gen_connection_tokenised|proved|Gen conformance: the Connection decision found in the source is the tokenised one
+C16_gen_shape|Iora.C16.gen_connection_tokenised|proved|Gen conformance: the Connection decision found in the source is the tokenised one (F33 repaired) and the 204/304 reconciliation applies to every method (FC16a repaired)
 C16_gen_session|Iora.C16.gen_session_fields_never_written|proved|Gen conformance: SessionInfo::httpVersion / connectionKeepAlive are never assigned, so the session half of the decision is constant
 """
 for _l in OBLIGATION_TABLE.strip().splitlines():
@@ -1138,5 +1138,8 @@ def load_corpus():
                 c.setdefault("cat", "corpus")
                 c.setdefault("first_req", 0)
                 c.setdefault("reqs", None)
+                for r in (c["reqs"] or []):
+                    if r.get("conn_last") is not None:
+                        r["conn_last"] = r["conn_last"].encode("latin1")
                 out.append(c)
     return out
